@@ -14,7 +14,8 @@ def lean_line(line):
     case-sensitive regex (`X…`, classes closed under ASCII case) — flags are not part of the model"""
     import regen
     toks = line.split()
-    return " ".join(toks[:4] + [":".join(regen.fold_field(f) for f in t.split(":")) for t in toks[4:]])
+    return " ".join(toks[:4] + [":".join(",".join(regen.fold_field(x) for x in f.split(",")) for f in t.split(":"))
+                                for t in toks[4:]])
 
 
 def model_request(line, impl):
